@@ -39,6 +39,29 @@ type Frame struct {
 	isRoot  bool
 	recvSub map[string]types.Type
 	edgeConds map[[2]int]T
+	cur     ssa.Instruction // the instruction being executed
+	heads   map[*ssa.BasicBlock]*loopHead
+}
+
+// innermostHead: the state at the head of the innermost loop around the
+// instruction being executed (for prev() outside loop clauses).
+func (fr *Frame) innermostHead() *State {
+	if fr.cur == nil || fr.cur.Block() == nil || fr.loops == nil || fr.heads == nil || fr.cur.Parent() != fr.fn {
+		return nil
+	}
+	var best *loop
+	for _, l := range fr.loops.ordered {
+		if l.body[fr.cur.Block()] && (best == nil || len(l.body) < len(best.body)) {
+			best = l
+		}
+	}
+	if best == nil {
+		return nil
+	}
+	if h := fr.heads[best.header]; h != nil {
+		return h.st
+	}
+	return nil
 }
 
 type retPoint struct {
@@ -265,6 +288,7 @@ func (fx *FnCtx) execFunction(fn *ssa.Function, args []Val, bindings []Val, st *
 	ins[fn.Blocks[0]] = []edgeState{{cond: st.guard, st: st}}
 	var rets []retPoint
 	heads := map[*ssa.BasicBlock]*loopHead{}
+	fr.heads = heads
 
 	for _, b := range fr.loops.order {
 		cur := fx.merge(fmt.Sprintf("b%d", b.Index), ins[b])
@@ -491,6 +515,8 @@ func (fr *Frame) enterLoop(l *loop, in *State, heads map[*ssa.BasicBlock]*loopHe
 		}
 	}
 	h.st = st
+	// (holds at every program point, so also for the unknown heaps here)
+	fr.assumeUnpublished(l.header.Instrs[0], st)
 	// automatic invariant of compiler-generated range-index loops:
 	// -1 <= rangeindex < bound (the bound is a register defined before the loop)
 	if ri := fr.rangeIndexInfo(l); ri != nil {
@@ -511,7 +537,7 @@ func (fr *Frame) enterLoop(l *loop, in *State, heads map[*ssa.BasicBlock]*loopHe
 				t, _ := fr.loopClause(inv, st, name)
 				return t
 			})
-			fx.assume(st.guard, t)
+			fx.labelled(inv.Label, func() { fx.assume(st.guard, t) })
 		}
 		for _, ap := range ls.HeadApplies {
 			call := ap.E.(*ECall)
@@ -520,7 +546,7 @@ func (fr *Frame) enterLoop(l *loop, in *State, heads map[*ssa.BasicBlock]*loopHe
 		}
 		for _, inv := range ls.Assumed {
 			inv := inv
-			fx.assume(st.guard, fx.hyp(func() T { return fr.evalClause(inv, st, nil, nil) }))
+			fx.labelled(inv.Label, func() { fx.assume(st.guard, fx.hyp(func() T { return fr.evalClause(inv, st, nil, nil) })) })
 			fx.noteAssumption("UNCHECKED loop-head assumption in " + name + ": " + inv.Label + " " + inv.Src)
 		}
 		if ls.Decreases != nil {
@@ -578,6 +604,18 @@ func (fr *Frame) backEdge(h *loopHead, st *State, pos token.Pos) {
 				continue
 			}
 			fx.oblige("invariant", fmt.Sprintf("%s/inv_preserved/%s", name, clauseName(inv, i)), st, t, pos, inv.Src)
+		}
+	}
+	if h.spec != nil {
+		for i, sc := range h.spec.Steps {
+			if !fx.eng.useClause(sc) {
+				continue
+			}
+			t, ok := fr.loopClause(sc, st, name)
+			if !ok {
+				continue
+			}
+			fx.oblige("invariant", fmt.Sprintf("%s/step/%s", name, clauseName(sc, i)), st, t, pos, sc.Src)
 		}
 	}
 	if h.rangeIdx != nil {
@@ -1028,6 +1066,7 @@ func (v Val) withGlobalDecl(fx *FnCtx, id int) Val {
 
 func (fr *Frame) exec(in ssa.Instruction, st *State) {
 	fx := fr.fx
+	fr.cur = in
 	switch x := in.(type) {
 	case *ssa.DebugRef:
 	case *ssa.Alloc:
@@ -1425,7 +1464,7 @@ func (fr *Frame) fieldAddr(st *State, p Val, field int, pos token.Pos) Val {
 		}
 		fr.nilCheck(st, p, pos, "fieldaddr")
 		fr.fx.noteAssumption("the address of " + embeddedKey(esh, field) + " is modelled as an object of its own, derived injectively from the enclosing object's reference (inverse: structPtr)")
-		code := fr.fx.define("emb", sInt, app("+", embBase, app("*", p.ts[0], "64"), num(int64(field))))
+		code := fr.fx.define("emb", sInt, fr.fx.embAddr(p.ts[0], field))
 		return Val{sh: &Shape{kind: KPtr, elem: esh.fields[field], key: "*" + esh.fields[field].key}, ts: []T{code}}
 	}
 	out := Val{sh: &Shape{kind: KPtr, elem: esh.fields[field], key: "*" + esh.fields[field].key}, ts: p.ts}
@@ -1785,9 +1824,9 @@ func (fr *Frame) binop(op token.Token, a, b Val, rsh *Shape, st *State, pos toke
 		var r T
 		switch op {
 		case token.ADD:
-			r = ii.wrap(add(x, y))
+			r = ii.wrapOnce(add(x, y))
 		case token.SUB:
-			r = ii.wrap(sub(x, y))
+			r = ii.wrapOnce(sub(x, y))
 		case token.MUL:
 			r = ii.wrap(app("*", x, y))
 		case token.QUO:
